@@ -1,4 +1,5 @@
 (* Proofs/Tac.v — shared proof automation: destructing the record values of a goal. *)
+From Coq Require Import List Arith.
 From CG Require Import Scalar Model.Vector.
 
 Ltac destruct_vecs :=
@@ -21,3 +22,93 @@ Ltac vec_eq :=
   | |- cons _ _ = cons _ _ => f_equal
   | |- _ /\ _ => split
   end.
+
+From CG Require Import Model.Point Model.Matrix.
+
+Ltac destruct_mats :=
+  repeat match goal with
+  | m : M2 _ |- _ => destruct m
+  | m : M3 _ |- _ => destruct m
+  | m : M4 _ |- _ => destruct m
+  | p : P1 _ |- _ => destruct p
+  | p : P2 _ |- _ => destruct p
+  | p : P3 _ |- _ => destruct p
+  end; destruct_vecs.
+
+Ltac mat_eq :=
+  repeat match goal with
+  | |- mkM2 _ _ = mkM2 _ _ => f_equal
+  | |- mkM3 _ _ _ = mkM3 _ _ _ => f_equal
+  | |- mkM4 _ _ _ _ = mkM4 _ _ _ _ => f_equal
+  | |- mkP1 _ = mkP1 _ => f_equal
+  | |- mkP2 _ _ = mkP2 _ _ => f_equal
+  | |- mkP3 _ _ _ = mkP3 _ _ _ => f_equal
+  | |- mkV1 _ = mkV1 _ => f_equal
+  | |- mkV2 _ _ = mkV2 _ _ => f_equal
+  | |- mkV3 _ _ _ = mkV3 _ _ _ => f_equal
+  | |- mkV4 _ _ _ _ = mkV4 _ _ _ _ => f_equal
+  | |- Some _ = Some _ => f_equal
+  | |- (_, _) = (_, _) => f_equal
+  | |- cons _ _ = cons _ _ => f_equal
+  | |- _ /\ _ => split
+  end.
+
+(* unfold every model definition of Vector/Point/Matrix down to scalar operations *)
+Ltac unfold_model :=
+  cbv [v1_add v2_add v3_add v4_add v1_sub v2_sub v3_sub v4_sub v1_neg v2_neg v3_neg v4_neg
+       v1_mul_s v2_mul_s v3_mul_s v4_mul_s v1_div_s v2_div_s v3_div_s v4_div_s
+       v1_rem_s v2_rem_s v3_rem_s v4_rem_s
+       v1_add_ew v2_add_ew v3_add_ew v4_add_ew v1_sub_ew v2_sub_ew v3_sub_ew v4_sub_ew
+       v1_mul_ew v2_mul_ew v3_mul_ew v4_mul_ew v1_div_ew v2_div_ew v3_div_ew v4_div_ew
+       v1_rem_ew v2_rem_ew v3_rem_ew v4_rem_ew
+       v1_add_ews v2_add_ews v3_add_ews v4_add_ews v1_sub_ews v2_sub_ews v3_sub_ews v4_sub_ews
+       v1_mul_ews v2_mul_ews v3_mul_ews v4_mul_ews v1_div_ews v2_div_ews v3_div_ews v4_div_ews
+       v1_rem_ews v2_rem_ews v3_rem_ews v4_rem_ews
+       v1_smul v2_smul v3_smul v4_smul v1_sdiv v2_sdiv v3_sdiv v4_sdiv v1_srem v2_srem v3_srem v4_srem
+       v1_sum v2_sum v3_sum v4_sum v1_product v2_product v3_product v4_product
+       v1_zero v2_zero v3_zero v4_zero v1_from_value v2_from_value v3_from_value v4_from_value
+       v1_dot v2_dot v3_dot v4_dot v1_magnitude2 v2_magnitude2 v3_magnitude2 v4_magnitude2
+       v1_distance2 v2_distance2 v3_distance2 v4_distance2
+       v1_lerp v2_lerp v3_lerp v4_lerp v1_project_on v2_project_on v3_project_on v4_project_on
+       v1_unit_x v2_unit_x v2_unit_y v3_unit_x v3_unit_y v3_unit_z v4_unit_x v4_unit_y v4_unit_z v4_unit_w
+       v2_perp_dot v3_cross v2_extend v3_extend v3_truncate v4_truncate v4_truncate_n
+       v1_map v2_map v3_map v4_map v1_zip v2_zip v3_zip v4_zip
+       v1_list v2_list v3_list v4_list
+       v1x v2x v2y v3x v3y v3z v4x v4y v4z v4w
+       p1_map p2_map p3_map p1_zip p2_zip p3_zip p1_from_value p2_from_value p3_from_value
+       p1_list p2_list p3_list p1_from_vec p2_from_vec p3_from_vec p1_to_vec p2_to_vec p3_to_vec
+       p1_zipv p2_zipv p3_zipv p1_zipp p2_zipp p3_zipp
+       p1_add_v p2_add_v p3_add_v p1_sub_v p2_sub_v p3_sub_v p1_sub_p p2_sub_p p3_sub_p
+       p1_mul_s p2_mul_s p3_mul_s p1_div_s p2_div_s p3_div_s p1_rem_s p2_rem_s p3_rem_s
+       p1_add_ew p2_add_ew p3_add_ew p1_sub_ew p2_sub_ew p3_sub_ew p1_mul_ew p2_mul_ew p3_mul_ew
+       p1_div_ew p2_div_ew p3_div_ew p1_rem_ew p2_rem_ew p3_rem_ew
+       p1_add_ews p2_add_ews p3_add_ews p1_sub_ews p2_sub_ews p3_sub_ews
+       p1_mul_ews p2_mul_ews p3_mul_ews p1_div_ews p2_div_ews p3_div_ews p1_rem_ews p2_rem_ews p3_rem_ews
+       p1_smul p2_smul p3_smul p1_sdiv p2_sdiv p3_sdiv p1_srem p2_srem p3_srem
+       p1_sum p2_sum p3_sum p1_product p2_product p3_product p1_origin p2_origin p3_origin
+       p1_dot p2_dot p3_dot p1_midpoint p2_midpoint p3_midpoint
+       p1_distance2 p2_distance2 p3_distance2 p3_to_homogeneous p3_from_homogeneous
+       p1x p2x p2y p3x p3y p3z
+       m2_from_cols m3_from_cols m4_from_cols m2_new m3_new m4_new m2_list m3_list m4_list
+       v2_get v3_get v4_get v2_set v3_set v4_set m2_col m3_col m4_col m2_set_col m3_set_col m4_set_col
+       m2_e m3_e m4_e m2_set_e m3_set_e m4_set_e v2_swap v3_swap v4_swap
+       m2_row m3_row m4_row m2_row0 m2_row1 m3_row0 m3_row1 m3_row2 m4_row0 m4_row1 m4_row2 m4_row3
+       m2_swap_rows m3_swap_rows m4_swap_rows m2_swap_columns m3_swap_columns m4_swap_columns
+       m2_swap_elements m3_swap_elements m4_swap_elements m2_replace_col m3_replace_col m4_replace_col
+       m2_transpose m3_transpose m4_transpose obind m2_transpose_self m3_transpose_self m4_transpose_self
+       m2_diagonal m3_diagonal m4_diagonal m2_mapc m3_mapc m4_mapc m2_zipc m3_zipc m4_zipc
+       m2_from_value m3_from_value m4_from_value m2_from_diagonal m3_from_diagonal m4_from_diagonal
+       m2_identity m3_identity m4_identity m2_zero m3_zero m4_zero m2_trace m3_trace m4_trace
+       m3_from_translation m3_from_nonuniform_scale m3_from_scale
+       m4_from_translation m4_from_nonuniform_scale m4_from_scale m3_of_m2 m4_of_m2 m4_of_m3
+       m2_neg m3_neg m4_neg m2_mul_s m3_mul_s m4_mul_s m2_div_s m3_div_s m4_div_s
+       m2_rem_s m3_rem_s m4_rem_s m2_add m3_add m4_add m2_sub m3_sub m4_sub
+       m2_smul m3_smul m4_smul m2_sdiv m3_sdiv m4_sdiv m2_srem m3_srem m4_srem
+       m2_mul_v m3_mul_v m4_mul_v m2_mul m3_mul m4_comb m4_mul
+       m2_determinant m3_determinant flat4 det_sub_proc m4_determinant
+       m2_invert m3_invert trunc_n m4_cf m4_invert
+       m3_transform_vector2 m3_transform_point2 m3_transform_vector3 m3_transform_point3
+       m4_transform_vector m4_transform_point m3_concat m4_concat m3_inverse_transform m4_inverse_transform
+       m2_lerp m3_lerp m4_lerp
+       m2x m2y m3x m3y m3z m4x m4y m4z m4w
+       app nth map fold_right fold_left repeat seq Nat.odd Nat.even Nat.add negb] in *.
